@@ -189,7 +189,7 @@ __CPROVER_ensures(self->WorkerIndices.size == __CPROVER_old(self->WorkerIndices.
                   self->WorkerIndices.gpresent == __CPROVER_old(self->WorkerIndices.gpresent) && self->WorkerIndices.gval == __CPROVER_old(self->WorkerIndices.gval))
 //@end
 
-//@harness h_order_worker enforce=MPIMaster_order_worker props=C16 min_obl=960 reach=3 timeout=120
+//@harness h_order_worker enforce=MPIMaster_order_worker props=C16 min_obl=891 reach=3 timeout=120
 void h_order_worker(void)
 {
   struct MPIMaster *m; int worker, job;
@@ -252,7 +252,7 @@ __CPROVER_loop_invariant(MPI_n_outstanding >= 0 && MPI_n_outstanding <= (long)se
 __CPROVER_decreases(self->WorkerStack.size)
 //@end
 
-//@harness h_order enforce=MPIMaster_order props=C16 min_obl=1800 reach=3 timeout=300
+//@harness h_order enforce=MPIMaster_order props=C16 min_obl=1751 reach=3 timeout=300
 void h_order(void)
 {
   struct MPIMaster *m;
@@ -307,7 +307,7 @@ __CPROVER_loop_invariant((unsigned long)((long)p + 1) == self->Nprocs || self->W
 __CPROVER_decreases((long)p + 1)
 //@end
 
-//@harness h_fill_stack enforce=MPIMaster_fill_stack_ props=C16 min_obl=1235 reach=2 timeout=120
+//@harness h_fill_stack enforce=MPIMaster_fill_stack_ props=C16 min_obl=1225 reach=2 timeout=120
 void h_fill_stack(void)
 {
   struct MPIMaster *m;
@@ -367,7 +367,7 @@ __CPROVER_loop_invariant(g_wp < 0 || ((long)i <= g_wp
 __CPROVER_decreases(self->Nprocs - i)
 //@end
 
-//@harness h_check_workers enforce=MPIMaster_check_workers props=C16 min_obl=1725 reach=4 timeout=300
+//@harness h_check_workers enforce=MPIMaster_check_workers props=C16 min_obl=1675 reach=4 timeout=300
 void h_check_workers(void)
 {
   struct MPIMaster *m;
@@ -388,7 +388,7 @@ __CPROVER_ensures(__CPROVER_return_value || (VERIF_acc_witness < self->Nprocs &&
 __CPROVER_ensures(self->Nprocs != 0 || __CPROVER_return_value)
 //@end
 
-//@harness h_master_is_finished enforce=MPIMaster_is_finished props=C16 min_obl=340 reach=2 timeout=60
+//@harness h_master_is_finished enforce=MPIMaster_is_finished props=C16 min_obl=338 reach=2 timeout=60
 void h_master_is_finished(void)
 {
   struct MPIMaster *m;
@@ -467,9 +467,9 @@ __CPROVER_ensures((self->Comm.g_dest == self->boss && self->Comm.g_tag == Pendin
 void h_worker_is_finished(void) { struct MPIWorker *w; MPIWorker_is_finished(w); REACH("exit"); }
 //@harness h_worker_is_working enforce=MPIWorker_is_working props=C16 min_obl=33 reach=1 timeout=60
 void h_worker_is_working(void) { struct MPIWorker *w; MPIWorker_is_working(w); REACH("exit"); }
-//@harness h_receive_order enforce=MPIWorker_receive_order props=C16 min_obl=340 reach=3 timeout=60
+//@harness h_receive_order enforce=MPIWorker_receive_order props=C16 min_obl=316 reach=3 timeout=60
 void h_receive_order(void) { struct MPIWorker *w; MPIWorker_receive_order(w); REACH("exit"); }
-//@harness h_report_job_done enforce=MPIWorker_report_job_done props=C16 min_obl=270 reach=2 timeout=60
+//@harness h_report_job_done enforce=MPIWorker_report_job_done props=C16 min_obl=259 reach=2 timeout=60
 void h_report_job_done(void) { struct MPIWorker *w; MPIWorker_report_job_done(w); REACH("exit"); }
 
 /* ---------------------------------------------------------------- 5c. MPIWorker::MPIWorker(comm, boss)
@@ -486,7 +486,7 @@ __CPROVER_ensures(self->req.active && !self->req.cancelled && self->req.source =
 __CPROVER_ensures(MPI_n_posted == __CPROVER_old(MPI_n_posted) + 1 && MPI_n_outstanding == __CPROVER_old(MPI_n_outstanding) + 1)
 __CPROVER_ensures(self->Comm.n_sends == comm->n_sends && self->Comm.rank_ == comm->rank_ && self->Comm.size_ == comm->size_)
 //@end
-//@harness h_worker_ctor enforce=MPIWorker_init2 props=C16 min_obl=235 reach=1 timeout=60
+//@harness h_worker_ctor enforce=MPIWorker_init2 props=C16 min_obl=234 reach=1 timeout=60
 void h_worker_ctor(void) { struct MPIWorker *w; Comm *c; int boss; MPIWorker_init2(w, c, boss); REACH("exit"); }
 
 /* ---------------------------------------------------------------- 6. mpi_skel<WrapType>::run, dissemination of the job map
@@ -525,7 +525,7 @@ __CPROVER_loop_invariant(MPI_bcast_gidx >= MPI_bcast_len[0] || (i <= MPI_bcast_g
 __CPROVER_decreases(jobs.size - i)
 //@end
 
-//@harness h_run_disseminate_worker enforce=run_disseminate_worker props=C16 min_obl=420 reach=2 timeout=60
+//@harness h_run_disseminate_worker enforce=run_disseminate_worker props=C16 min_obl=417 reach=2 timeout=60
 void h_run_disseminate_worker(void)
 {
   struct mpi_skel *s; Comm *c; unsigned long *root; IntMap *jm;
@@ -560,7 +560,7 @@ __CPROVER_loop_invariant((unsigned long)i <= MPI_bcast_gidx || MPI_bcast_gidx >=
 __CPROVER_decreases(workers.size - (unsigned long)i)
 //@end
 
-//@harness h_run_disseminate_root enforce=run_disseminate_root props=C16 min_obl=835 reach=2 timeout=90
+//@harness h_run_disseminate_root enforce=run_disseminate_root props=C16 min_obl=829 reach=2 timeout=90
 void h_run_disseminate_root(void)
 {
   IntMap *jm; MasterPtr *d; Comm *c; unsigned long *root;
